@@ -98,7 +98,7 @@ impl Prop for C08 {
     }
     fn runs(&self, tier: Tier) -> u64 {
         match tier {
-            Tier::Quick => 2000,
+            Tier::Quick => 3000,
             Tier::Thorough => 30000,
         }
     }
